@@ -1,5 +1,8 @@
 //! mc-signer: serves C20 (see /verif/DESIGN.md §4)
 mod c20;
+mod refagg;
+mod sys;
+mod world;
 
 fn main() {
     let ctx = mc_core::Ctx::from_args();
